@@ -156,7 +156,7 @@ func (p *Parser) parseComparisonExpression() (ast.Expression, error) {
 	}
 
 	// Check for LIKE/ILIKE operator
-	if p.isType(models.TokenTypeLike) || strings.EqualFold(p.currentToken.Literal, "ILIKE") {
+	if p.isType(models.TokenTypeLike) || p.isTokenMatch("ILIKE") {
 		operator := p.currentToken.Literal
 		p.advance() // Consume LIKE/ILIKE
 
@@ -182,7 +182,7 @@ func (p *Parser) parseComparisonExpression() (ast.Expression, error) {
 	}
 
 	// Check for REGEXP/RLIKE operator (MySQL)
-	if strings.EqualFold(p.currentToken.Literal, "REGEXP") || strings.EqualFold(p.currentToken.Literal, "RLIKE") {
+	if p.isTokenMatch("REGEXP") || p.isTokenMatch("RLIKE") {
 		operator := strings.ToUpper(p.currentToken.Literal)
 		p.advance()
 		pattern, err := p.parseStringConcatExpression()
